@@ -249,11 +249,16 @@ def c_gop(op):
         return ('(GPeerEval %s {| ro_src := %s; ro_net := %s; ro_attrs := %s; ro_nh := %s; ro_orig := %s; '
                 'ro_confed := %s; ro_local := %s; ro_peer := %s |})') % (
             cN(op[1]), c_src(op[2]), c_nlri(op[3]), c_attrs(op[4]), c_nh(op[5]), c_nh(op[6]), cbool(op[7]), c_ip(op[8]), c_ip(op[9]))
+    if t == 25: return 'GSetRpki'
+    if t == 26:
+        return ('(GImportEval {| ro_src := %s; ro_net := %s; ro_attrs := %s; ro_nh := %s; ro_orig := None; '
+                'ro_confed := false; ro_local := IP4 0%%N; ro_peer := IP4 0%%N |})') % (c_src(op[1]), c_nlri(op[2]), c_attrs(op[3]), c_nh(op[4]))
+    if t == 27: return '(GProbe %s %s)' % (c_nlri(op[1]), cN(op[2]))
     return 'GDump'
 
 def as_eval_ops(ops):
     """Global-level ops seen as table-level ops for the universe / table computations (23 -> 9)"""
-    return [([9, 1] + op[2:]) if op[0] == 23 else op for op in ops]
+    return [([9, 1] + op[2:]) if op[0] == 23 else ([9, 0, op[1], op[2], op[3], op[4], [], 0, op[1][2], op[1][1]] if op[0] == 26 else op) for op in ops]
 
 # ---------------------------------------------------------------- regex tables for a case
 def case_universe(ops):
@@ -327,7 +332,7 @@ def probe_table(ops, obs):
     tv = {}
     if isinstance(obs, list):
         for op, o in zip(ops, obs):
-            if op[0] == 12 and o != [-2] and o != [-1]:
+            if op[0] in (12, 27) and o != [-2] and o != [-1]:
                 tv[(tuple(op[1]), op[2])] = o[0] if o else None
     return tv
 
@@ -703,6 +708,8 @@ def ref_actions(act, x, attrs, nh):
 def ref_eval(ref, op, rpki=None):
     """reference result of an Eval op: (first element, attrs, nh) or a string for 'no verdict'"""
     d = op[1]
+    if op[0] == 26:
+        op = [9, 0, op[1], op[2], op[3], op[4], [], 0, op[1][2], op[1][1]]; d = 0
     if op[0] == 23:
         a = ref.peers.get(op[1]) or ref.asg.get(1)
         if a is None: return ('none',)
@@ -762,7 +769,8 @@ class Prop:
     required_theorems = ['eval_code_eq_spec', 'eval_spec_is_functional', 'aspath_regex_ignored_pre_fix_refuted',
                          'eval_never_panics_api', 'eval_never_panics_wire', 'crud_preserves_references',
                          'crud_referenced_frozen', 'global_preserves_references', 'global_referenced_frozen', 'wire_aspath_decoded', 'wire_aspath_rendered', 'api_built_assignments_wf', 'prefix_merge_content', 'stored_sets_keys_unique',
-                         'crud_total_on_canonical_prefixes', 'peer_effective_export_wf',
+                         'crud_total_on_canonical_prefixes', 'peer_effective_export_wf', 'needs_rpki_cached_correctly',
+                         'gated_evaluation_history_independent',
                          'prefix_set_longest_match_refuted', 'aspath_patterns_refuted', 'arithmetic_and_api_refuted']
     correspondence_name = ('Model/Policy.v eval_code + Model/PolicyTable.v crud_step vs table/src/policy.rs PolicyTable / '
                            'apply_import / apply_export (harness/hx-policy); Model/PolicyGlobal.v gstep vs daemon/src/event/mod.rs Global '
@@ -792,8 +800,8 @@ class Prop:
         if c.get('kind') == 'global':
             eo = as_eval_ops(c['ops'])
             tc, te, tl = rx_tables(eo)
-            return 'grun_case %s %s %s %s %s' % (c_table(tc), c_table(te), c_table(tl), c_str_table(aspath_table(eo)),
-                                                clist([c_gop(o) for o in c['ops']]))
+            return 'grun_case %s %s %s %s %s %s' % (c_table(tc), c_table(te), c_table(tl), c_str_table(aspath_table(eo)),
+                                                   c_probe_table(c.get('_tv', {})), clist([c_gop(o) for o in c['ops']]))
         tc, te, tl = rx_tables(c['ops'])
         return 'run_case %s %s %s %s %s %s' % (c_table(tc), c_table(te), c_table(tl), c_str_table(aspath_table(c['ops'])),
                                              c_probe_table(c.get('_tv', {})), clist([c_op(o) for o in c['ops']]))
@@ -845,18 +853,23 @@ class Prop:
         for k, op in enumerate(c['ops']):
             if k >= len(obs): return None
             o = obs[k]
-            if op[0] == 11:
+            if op[0] in (11, 25):
                 rpki = tv
                 continue
-            if op[0] == 12:
+            if op[0] in (12, 27):
                 if o == [-1]: return 'op %d: RpkiTable::validate panicked' % k
                 continue
-            if op[0] in (9, 23):
+            if op[0] in (9, 23, 26):
                 cls = eval_classes(ref, op)
                 tag = ''.join(' [class:%s]' % t for t in sorted(cls))
                 if o == [-1]:
                     return 'op %d: policy evaluation panicked%s' % (k, tag)
                 r = ref_eval(ref, op, rpki)
+                if r[0] == 'none' and op[0] == 26:
+                    # TableManager::apply_import without an import assignment: not filtered, nothing changed
+                    want = [0, [attr_out(a) for a in (attr_in(x) for x in op[3]) if a is not None], op[4]]
+                    if o != want: return 'op %d: import without an assignment changed or filtered the route' % k
+                    continue
                 if r[0] == 'none':
                     if o != [-2]: return 'op %d: evaluation result without an assignment' % k
                     continue
@@ -872,6 +885,14 @@ class Prop:
                     for x in a:
                         for pp in x[1]:
                             if pp[1] != 1: return 'op %d: peer %d holds a stale copy of policy %d' % (k, pid, pp[0])
+                for pid, a in o[1]:
+                    for x in a:
+                        w = self.flag_check(ref, k, 'peer %d\'s export override' % pid, x, [p[0] for p in x[1]])
+                        if w: return w
+                for d_, a in ((0, o[0][3]), (1, o[0][4])):
+                    for x in a:
+                        w = self.flag_check(ref, k, 'the global %s assignment' % ('import' if d_ == 0 else 'export'), x, [p[0] for p in x[1]])
+                        if w: return w
                 if o[2] != 1 or o[3] != 1: return 'op %d: the policy slot the sessions read is not the table\'s assignment' % k
                 o = o[0]
                 for p in o[2]:
@@ -889,14 +910,28 @@ class Prop:
                 for p in o[2]:
                     for s in p[1]:
                         if s[1] != 1: return 'op %d: policy %d holds a stale copy of statement %d' % (k, p[0], s[0])
-                for a in (o[3], o[4]):
+                for d_, a in ((0, o[3]), (1, o[4])):
                     for x in a:
                         for p in x[1]:
                             if p[1] != 1: return 'op %d: assignment holds a stale copy of policy %d' % (k, p[0])
+                        w = self.flag_check(ref, k, 'the global %s assignment' % ('import' if d_ == 0 else 'export'), x, [p[0] for p in x[1]])
+                        if w: return w
             else:
                 if o == [-1]: return None     # a panic inside a CRUD call is outside the property text
                 why = ref.apply(op, o[0])
                 if why: return 'op %d: %s' % (k, why)
+        return None
+
+    @staticmethod
+    def flag_check(ref, k, who, a, names):
+        """the cached needs_rpki flag of an assignment must be set whenever one of its policies has an rpki condition
+        (a flag that is set without need changes nothing; a missing flag makes the condition unreachable in the daemon)"""
+        if len(a) < 3: return None
+        for p in names:
+            for sn in ref.pols.get(p, []):
+                st = ref.stmts.get(sn)
+                if st and any(cd[0] == 8 for cd in st['conds']) and a[2] != 1:
+                    return 'op %d: %s caches needs_rpki = false although its policy %d (statement %d) has an rpki condition' % (k, who, p, sn)
         return None
 
     def in_known_class(self, kf, c, obs, why):
@@ -908,12 +943,12 @@ class Prop:
         nontrivial = False
         ref_has = False
         for op, o in zip(c['ops'], obs):
-            if op[0] in (9, 23):
+            if op[0] in (9, 23, 26):
                 if o not in ([-1], [-2]):
-                    sig.append((op[1], o[0], tuple(a[1] for a in o[1]), len(o[2])))
+                    sig.append((op[0], o[0], tuple(a[1] for a in o[1]), len(o[2])))
                     nontrivial = nontrivial or ref_has
                 else: sig.append(tuple(o))
-            elif op[0] in (10, 11, 12, 24): continue
+            elif op[0] in (10, 11, 12, 24, 25, 27): continue
             else:
                 sig.append((op[0], tuple(o)))
                 if op[0] == 3 and o == [0]:
@@ -926,7 +961,7 @@ class Prop:
         n = len(c['ops'])
         tags.append('ops_%s' % ('1-6' if n <= 6 else '7-12' if n <= 12 else '13+'))
         if isinstance(obs, list):
-            codes = [o[0] for op, o in zip(c['ops'], obs) if op[0] not in (9, 10, 11, 12, 23, 24) and o != [-1]]
+            codes = [o[0] for op, o in zip(c['ops'], obs) if op[0] not in (9, 10, 11, 12, 23, 24, 25, 26, 27) and o != [-1]]
             for op, o in zip(c['ops'], obs):
                 if op[0] == 12 and o != [-2]: tags.append('rpki_probe_%s' % (o[0] if o else 'none'))
             for code, nm in ((1, 'err_invalid'), (2, 'err_in_use'), (3, 'err_not_found')):
